@@ -79,7 +79,8 @@ AppSends(s, gh) ==
   \cup (IF "unsubscribe" \in AppKinds THEN { Sized([Pk("unsubscribe", v) EXCEPT !.pid = pid], s.idw) : pid \in gh.held } ELSE {})
   \cup (IF "pubrel" \in AppKinds
         THEN { AckPkt("pubrel", v, e.pid, 0, s.idw) : e \in { x \in gh.await : x.kind = "pubrel" } } ELSE {})
-  \cup UNION { { AckPkt(k, v, pid, rc, s.idw) : pid \in gh.inUn \cup (IF k = "pubcomp" THEN InPids ELSE {}), rc \in (IF k = "pubrec" /\ v = "v50" THEN Rcs ELSE {0}) }
+  \cup UNION { { AckPkt(k, v, pid, rc, s.idw) : pid \in gh.inUn \cup (IF k = "pubcomp" THEN InPids ELSE IF k = "pubrec" THEN gh.handled ELSE {}),
+                                                  rc \in (IF k = "pubrec" /\ v = "v50" THEN Rcs ELSE {0}) }
                : k \in AppKinds \cap {"puback", "pubrec", "pubcomp"} }
   \cup UNION { { AckPkt(k, v, pid, 0, s.idw) : pid \in InPids } : k \in AppKinds \cap {"suback", "unsuback"} }
   \cup { Sized(Pk(k, v), s.idw) : k \in AppKinds \cap {"pingreq", "pingresp", "disconnect"} }
@@ -125,11 +126,16 @@ EnvChoices(s, gh) ==
   \cup (IF ~quiet /\ (gh.conn = "connected" \/ SendWhileDisc)
         THEN { [Call("send") EXCEPT !.pkt = p] : p \in AppSends(s, gh) } ELSE {})
   (* peer traffic *)
-  \cup (IF ~quiet /\ ((gh.conn = "connected" /\ gh.tr) \/ (PeerWhileDisc /\ (gh.tr \/ CanBeServer(s))))
+  \cup (IF ~quiet /\ ((gh.conn = "connected" /\ gh.tr) \/ PeerWhileDisc)
         THEN { [Call("recv") EXCEPT !.pkt = p, !.flag = TRUE] : p \in PeerFrames(s, gh) } ELSE {})
   \cup (IF ~quiet /\ Garbage /\ gh.tr THEN { Call("garbage") } ELSE {})
-  \cup (IF ~quiet /\ PartialFrames /\ gh.tr /\ gh.conn = "connected"
-        THEN { [Call("recv") EXCEPT !.pkt = Sized([Pk("publish", Ver(s)) EXCEPT !.topic = "t1", !.msg = "m1"], s.idw), !.flag = FALSE] } ELSE {})
+  \* the transport delivers only the first bytes of a frame and is then lost - in ANY connection state
+  \* (also before the first CONNECT of a server, and after a DISCONNECT was sent)
+  \cup (IF ~s.partial /\ PartialFrames /\ (gh.tr \/ CanBeServer(s))
+        THEN { [Call("recv") EXCEPT !.pkt = IF gh.conn = "disc" /\ ~gh.tr
+                                             THEN Sized([Pk("connect", Ver(s)) EXCEPT !.clean = TRUE], 16)
+                                             ELSE Sized([Pk("publish", Ver(s)) EXCEPT !.topic = "t1", !.msg = "m1"], s.idw),
+                                    !.flag = FALSE] } ELSE {})
   (* timers, transport *)
   \cup (IF Fire /\ s.ver # "undet" THEN { [Call("fire") EXCEPT !.k = k] : k \in gh.armed } ELSE {})
   \cup (IF gh.tr /\ (Close \/ quiet) THEN { Call("closed") } ELSE {})
@@ -142,7 +148,8 @@ EnvChoices(s, gh) ==
   \cup (IF ~quiet /\ Cardinality(gh.held) < MaxHeld /\ Cardinality(gh.used) < MaxUsed THEN { Call("acquire") } ELSE {})
   \cup (IF ~quiet /\ IdOps
         THEN { [Call("register") EXCEPT !.id = pid] : pid \in ExtraPids \cup {0} }
-             \cup { [Call("release") EXCEPT !.id = pid] : pid \in gh.held \cup ExtraPids \cup {0} } ELSE {})
+             \cup { [Call("release") EXCEPT !.id = pid]       \* never the identifier of a running exchange
+                     : pid \in (gh.held \cup ExtraPids \cup {0}) \ ({ e.pid : e \in gh.await } \cup gh.sub \cup gh.unsub) } ELSE {})
   \cup (IF ~quiet /\ Erase THEN { [Call("erase") EXCEPT !.id = s.store[i].pid] : i \in { j \in DOMAIN s.store : s.store[j].kind = "publish" } } ELSE {})
   \cup (IF ~quiet /\ gh.conn # "disc" THEN { [Call("set_interval") EXCEPT !.val = V(v)] : v \in Intervals } ELSE {})
 
